@@ -86,6 +86,32 @@ CLAIMS["C14"] = (
     "Assumes dataclasses.replace semantics (re-runs __init__ with current init-field values).",
     "DESIGN.md §3 C14",
 )
+CLAIMS["C15"] = (
+    "finite order-type evaluation (all weak orderings of 4 and 6 symbolic points) of the comparison methods + decision trees of the merge functions",
+    "CodePoint/CodeRange are touched only through comparisons of .index, so their comparison methods are decided over every weak ordering of the points "
+    "involved (75 orderings of 4 points for the binary laws, 4683 of 6 points for transitivity/associativity, exhaustive): equivalence with the reference "
+    "formulas and the algebraic laws; construction guards at boundary values; decision trees of CodeOrigin.__add__ and merge_origins, single construction "
+    "site of MultiOrigin, operand-order inference in MultiOrigin.__post_init__, exact slice bounds of get_raw. fqn composition is not decided.",
+    "Assumes Python's reflected-operator fallback and min/max semantics; operator dispatch resolved through the analysed class table.",
+    "DESIGN.md §3 C15",
+)
+CLAIMS["C13"] = (
+    "truth table of the bool/int guard, length-guard dominance of the fixed-tuple zip (decision tree with integer domains), effect analysis of the gating block",
+    "The leading guard of is_instance equals `annotation is int and value is a bool` on all rows; the element-wise zip for fixed tuples is reached only with equal "
+    "lengths; the block gated by config.RUNTIME_TYPE_CHECK is entered exactly when the flag is on, has no effect besides raising, checks every field except "
+    "id/content_id irrespective of init and raises InvalidTypes with exactly the non-conforming fields. is_instance over the whole annotation grammar is not decided.",
+    "Assumes typing introspection helpers behave as documented.",
+    "DESIGN.md §3 C13",
+)
+CLAIMS["C09"] = (
+    "decision trees of accept, of the per-child loop body of _transform_children (identity atoms) and of generic_visit",
+    "accept branches on visitor.strict (own class only vs first hit along the MRO in order) with generic_visit fallback; in _transform_children every child is visited "
+    "once, removed elements are dropped and mark the field, kept elements are appended in order and mark the field iff they are a different object (identity), single fields "
+    "are set and marked iff different; only marked fields are returned, lists become tuples; generic_visit returns the same node when nothing changed and "
+    "dataclasses.replace otherwise. These path facts hold for every tree and visitor; user visitor methods are not decided.",
+    "Assumes inspect.getmro order; input immutability is decided by C10's effect analysis.",
+    "DESIGN.md §3 C09",
+)
 PENDING = "check not built yet (work in progress; see DESIGN.md for the planned static rules)"
 
 checks = []
